@@ -70,6 +70,9 @@ Restrictions ==
   R("ep_piston.ep_piston.EPpiston", "Y", ">", <<0, 1>>),
   R("ep_piston.ep_piston.EPpiston", "rho0", ">", <<0, 1>>),
   R("ep_piston.ep_piston.EPpiston", "up", ">=", <<0, 1>>),
+  \* "Elastic Wave went beyond xmax ... reduce time or increase xmax": xmax is the largest requested position (0.05 in the probe request);
+  \* with the default material the elastic wave reaches it at t = 0.0768 (3/40 is inside, 3/40 + 3/160 outside)
+  T("ep_piston.ep_piston.EPpiston", "<=", <<3, 40>>, "raise"),
   R("kenamond.kenamond1.Kenamond1", "D", ">", <<0, 1>>),
   R("kenamond.kenamond2.Kenamond2", "R", ">", <<0, 1>>),
   R("kenamond.kenamond2.Kenamond2", "D1", ">=", <<1, 1>>),      \* documented "D2 < D1"; the repository's own tests use D1 = D2 as a valid problem, so the boundary is admitted
